@@ -1,6 +1,7 @@
 package checks
 
 import (
+	"bytes"
 	"encoding/binary"
 	"encoding/hex"
 	"hash/crc32"
@@ -99,6 +100,21 @@ func mutateBytes(r *sim.Rng, img []byte) []byte {
 
 func uvarint(v uint64) []byte { return refxz.PutVarint(nil, v) }
 
+// hostileVarint is a variable-length integer field as an attacker writes it:
+// a value's regular encoding, or an encoding that overflows 64 bits (a tenth
+// byte above 1, more than ten bytes) or is not minimal.
+func hostileVarint(r *sim.Rng, values []uint64) []byte {
+	switch r.Intn(6) {
+	case 0:
+		return append(bytes.Repeat([]byte{0xff}, 9), byte(r.Range(2, 0x7f))) // tenth byte overflows
+	case 1:
+		return append(bytes.Repeat([]byte{0x80 | byte(r.Intn(128))}, r.Range(10, 14)), byte(r.Intn(128))) // too long
+	case 2:
+		return append(uvarint(sim.Pick(r, values) | 0x80)[:1], 0x80, 0x00) // not minimal
+	}
+	return uvarint(sim.Pick(r, values))
+}
+
 // structuredGarbage builds header-valid garbage.
 func structuredGarbage(r *sim.Rng, format string) []byte {
 	switch format {
@@ -162,16 +178,16 @@ func structuredGarbage(r *sim.Rng, format string) []byte {
 	case 0: // valid block header, garbage data
 		h := []byte{0, byte(r.Intn(4)) << 6}
 		if h[1]&0x40 != 0 {
-			h = append(h, uvarint(sim.Pick(r, []uint64{1, 5, 1 << 20, 1<<63 - 1, 1 << 62, 1 << 63, 1<<64 - 1}))...)
+			h = append(h, hostileVarint(r, []uint64{1, 5, 1 << 20, 1<<63 - 1, 1 << 62, 1 << 63, 1<<64 - 1})...)
 		}
 		if h[1]&0x80 != 0 {
-			h = append(h, uvarint(sim.Pick(r, []uint64{0, 5, 1 << 20, 1<<63 - 1, 1 << 63, 1<<64 - 2}))...)
+			h = append(h, hostileVarint(r, []uint64{0, 5, 1 << 20, 1<<63 - 1, 1 << 63, 1<<64 - 2})...)
 		}
 		if r.Chance(1, 3) {
 			// hostile filter fields: id and size of properties are variable-length
 			// integers too (ten-byte encodings reach 2^64-1)
-			h = append(h, uvarint(sim.Pick(r, []uint64{0x21, 0x21, 0x21, 3, 1 << 62, 1<<64 - 1}))...)
-			h = append(h, uvarint(sim.Pick(r, []uint64{1, 0, 2, 2000, 1 << 20, 1 << 40, 1<<63 - 1, 1 << 63, 1<<64 - 1, 1<<64 - 2}))...)
+			h = append(h, hostileVarint(r, []uint64{0x21, 0x21, 0x21, 3, 1 << 62, 1<<64 - 1})...)
+			h = append(h, hostileVarint(r, []uint64{1, 0, 2, 2000, 1 << 20, 1 << 40, 1<<63 - 1, 1 << 63, 1<<64 - 1, 1<<64 - 2})...)
 			h = append(h, r.Bytes(r.Range(0, 6))...)
 		} else {
 			h = append(h, 0x21, 0x01, byte(r.Intn(29)))
@@ -190,7 +206,7 @@ func structuredGarbage(r *sim.Rng, format string) []byte {
 		out = append(out, r.Bytes(r.Range(0, 60))...)
 	case 1: // index with hostile numbers
 		ix := []byte{0}
-		ix = append(ix, uvarint(sim.Pick(r, []uint64{0, 1, 2, 1 << 20, 1<<63 - 1, 1 << 62, 1 << 32}))...)
+		ix = append(ix, hostileVarint(r, []uint64{0, 1, 2, 1 << 20, 1<<63 - 1, 1 << 62, 1 << 32})...)
 		for i, n := 0, r.Intn(4); i < n; i++ {
 			ix = append(ix, uvarint(r.Uint64()>>uint(r.Intn(64)))...)
 		}
